@@ -19,6 +19,7 @@ DRIVERS = {
     'C10': 'drivers.urlnorm', 'C11': 'drivers.urlnorm',
     'C15': 'drivers.pathname',
     'C09': 'drivers.errorflow',
+    'X01': 'drivers.cache',      # not a listed property: wpull/cache.py against specs/Cache.tla (DESIGN 12.13)
 }
 
 
